@@ -90,6 +90,21 @@ Proof.
 Qed.
 Print Assumptions C01_full_step_hop_conserves_energy.
 
+(* bookkeeping for ANY hop decision of a pass (none, frustrated, accepted): kinetic energy plus the potential of the state that
+   is active at the end equals what the Verlet half alone produced on the old surface - hops never change the total energy,
+   so the only energy error of a trajectory is the O(dt^2) error of velocity Verlet *)
+Theorem C01_full_step_energy_bookkeeping :
+  forall n m dt poisson zeta (e0 e1 : elec (T:=R)) lam Cm (s s' : tstate (T:=R)) W hp att,
+  step ROps n m dt poisson zeta e0 e1 lam Cm s = (s', W, hp, att) ->
+  let f0 := nth (pact s) (eforce e0) [] in let f1 := nth (pact s) (eforce e1) [] in
+  let v1 := advance_velocity ROps m (pv s) f0 f1 dt in
+  (forall t, att = Some (t, true) ->
+     Forall (fun mi => 0 < mi) m /\ length v1 = length m /\ length (tget (etau e1) (pact s) t) = length m
+     /\ 0 < vdot ROps (tget (etau e1) (pact s) t) (tget (etau e1) (pact s) t)) ->
+  kinetic ROps m (pv s') + vget ROps (diagE ROps n e1) (pact s') = kinetic ROps m v1 + vget ROps (diagE ROps n e1) (pact s).
+Proof. intros n m dt poisson zeta e0 e1 lam Cm s s' W hp att H f0 f1 v1 Hacc. exact (step_energy_any n m dt poisson zeta e0 e1 lam Cm s s' W hp att H Hacc). Qed.
+Print Assumptions C01_full_step_energy_bookkeeping.
+
 (* PARTIAL — full statement: "along every trajectory the logged total energy is constant
    up to an error that shrinks quadratically with dt".  Proved: exact conservation at hops,
    exact reversibility of the nuclear integrator, exact O(dt^2) shadow energy for the
